@@ -97,7 +97,7 @@ const BAD_SEQS: &[&[u8]] = &[
 /// One hostile document. `explicit work` of every shape is bounded (<= 5e4 element x iteration).
 pub fn hostile_doc(rng: &mut Rng, env: &WorkerEnv) -> (String, Vec<u8>) {
     let d = *rng.pick(DEPTHS);
-    match rng.below(37) {
+    match rng.below(40) {
         0 => (
             "expr-paren-depth".into(),
             format!("<svg><rect wh=\"{{{{{}}}}}\"/></svg>", nest("(", ")", d, "1")).into_bytes(),
@@ -428,6 +428,42 @@ pub fn hostile_doc(rng: &mut Rng, env: &WorkerEnv) -> (String, Vec<u8>) {
                 _ => format!("<svg><circle id=\"a\" cxy=\"0 0\" r=\"0\"/><ellipse id=\"b\" cxy=\"0 0\" rxy=\"0 5\"/><{el} start=\"#a@r\" end=\"#b@l\"{et} class=\"d-arrow\"/></svg>"),
             };
             ("connector-degenerate".into(), s.into_bytes())
+        }
+        33 | 34 => {
+            // every built-in function with special-value arguments and every arity 0..4
+            const FUNCS: &[&str] = &[
+                "abs", "ceil", "floor", "fract", "sign", "divmod", "sqrt", "log", "exp", "pow", "sin", "cos", "tan", "asin", "acos", "atan",
+                "random", "randint", "min", "max", "sum", "product", "mean", "clamp", "mix", "eq", "ne", "lt", "le", "gt", "ge", "if", "not",
+                "and", "or", "xor", "swap", "r2p", "p2r", "select", "addv", "subv", "scalev", "head", "tail", "empty", "count", "in", "split",
+                "splitw", "trim", "join", "_",
+            ];
+            const ARGS: &[&str] = &[
+                "sqrt(-1)", "0/0", "1e39", "-1e39", "1e39 - 1e39", "0", "-0", "1", "-1", "0.5", "2147483648", "-2147483649", "1e-45", "3.4e38",
+                "'a'", "''", "'a b'", "1, 2", "()", "log(0)", "exp(100)", "$nope", "#nope~w", "randint(1, 1)", "pow(0, -1)", "1 % 0",
+            ];
+            let f = *rng.pick(FUNCS);
+            let n = rng.usize(5);
+            let args: Vec<&str> = (0..n).map(|_| *rng.pick(ARGS)).collect();
+            let e = format!("{f}({})", args.join(", "));
+            let site = match rng.below(5) {
+                0 => format!("<rect wh=\"{{{{{e}}}}}\"/>"),
+                1 => format!("<rect wh=\"2\" text=\"{{{{{e}}}}}\"/>"),
+                2 => format!("<var v=\"{{{{{e}}}}}\"/><rect wh=\"$v\"/>"),
+                3 => format!("<loop count=\"{{{{{e}}}}}\"><rect wh=\"1\"/></loop>"),
+                _ => format!("<if test=\"{e}\"><rect wh=\"1\"/></if><rect xy=\"{{{{{e}}}}} {{{{{e}}}}}\" wh=\"1\"/>"),
+            };
+            ("expr-fn-fuzz".into(), format!("<svg>{site}</svg>").into_bytes())
+        }
+        35 => {
+            // nesting spread over a chain of variables: each link adds its own parentheses
+            let links = *rng.pick(&[4usize, 8, 20, 60, 99]);
+            let parens = *rng.pick(&[10usize, 50, 95, 99]);
+            let mut s = String::from("<svg>");
+            for i in 0..links {
+                s.push_str(&format!("<var v{i}=\"{}$v{}{}\"/>", "(".repeat(parens), i + 1, ")".repeat(parens)));
+            }
+            s.push_str(&format!("<var v{links}=\"1\"/><rect wh=\"{{{{$v0}}}}\"/></svg>"));
+            ("expr-var-paren-chain".into(), s.into_bytes())
         }
         28 => {
             let (dd, why) = docgen::failing_doc(rng);
